@@ -278,6 +278,12 @@ structure Causal (e : Env) (s : St) (i : Nat) : Prop where
   noSelf : ∀ r ∈ (e.tx i).ins, r.tx ≠ (e.tx i).id
   noSelfVer : ∀ ki ∈ (e.tx i).kin, ki.ver.map (·.1) ≠ some (e.tx i).id
 
+/-- the token half of `Causal` -/
+def CausalIns (e : Env) (s : St) (i : Nat) : Prop :=
+  (∀ j ∈ s.pool, ∀ r ∈ (e.tx j).ins, r.tx ≠ (e.tx i).id) ∧ (∀ r ∈ (e.tx i).ins, r.tx ≠ (e.tx i).id)
+
+theorem Causal.toIns {e : Env} {s : St} {i : Nat} (h : Causal e s i) : CausalIns e s i := ⟨h.notCited, h.noSelf⟩
+
 /-- token part of the no-double-spend invariant, relative to a set `old` of transactions whose mutual disjointness is
 not claimed (`old = []`: all pairs): every input of a pending transaction is spent, and two distinct pending
 transactions not both in `old` share no token input -/
@@ -310,7 +316,7 @@ theorem VersDisjoint_empty (e : Env) (old : List Nat) (s : St) (h : s.pool = [])
 /-- one admission keeps the token invariant: the new transaction's inputs were unspent, those of every pending
 transaction were spent — so they differ — and afterwards all of them are spent -/
 theorem doTx_InsDisjoint (e : Env) (old : List Nat) (s : St) (lh : Int) (i : Nat) (hinv : InsDisjoint e old s)
-    (hc : (doTx e s lh i).2 = .ok → Causal e s i) : InsDisjoint e old (doTx e s lh i).1 := by
+    (hc : (doTx e s lh i).2 = .ok → CausalIns e s i) : InsDisjoint e old (doTx e s lh i).1 := by
   by_cases hok : (doTx e s lh i).2 = .ok
   · obtain ⟨hnp, hadm, hs'⟩ := doTx_ok e s lh i hok
     have hca := hc hok
@@ -325,9 +331,9 @@ theorem doTx_InsDisjoint (e : Env) (old : List Nat) (s : St) (lh : Int) (i : Nat
     · intro j hj r hr
       simp only at hj ⊢
       rcases List.mem_append.mp hj with hj | hj
-      · exact spent_stays_spent s (e.tx i) (r.tx, r.off) (hca.notCited j hj r hr) (hinv.insSpent j hj r hr)
+      · exact spent_stays_spent s (e.tx i) (r.tx, r.off) (hca.1 j hj r hr) (hinv.insSpent j hj r hr)
       · simp only [List.mem_cons, List.not_mem_nil, or_false] at hj; subst hj
-        exact consume s (e.tx j) hca.noSelf r hr
+        exact consume s (e.tx j) hca.2 r hr
     · intro a ha0 b hb0 hab hold r hr r' hr'
       have ha := List.mem_append.mp ha0
       have hb := List.mem_append.mp hb0
@@ -415,11 +421,33 @@ def CausalRun (e : Env) (lh : Int) : List Nat → St → Prop
   | [], _ => True
   | i :: rest, s => ((doTx e s lh i).2 = .ok → Causal e s i) ∧ CausalRun e lh rest (doTx e s lh i).1
 
+/-- the token half of `CausalRun` -/
+def CausalInsRun (e : Env) (lh : Int) : List Nat → St → Prop
+  | [], _ => True
+  | i :: rest, s => ((doTx e s lh i).2 = .ok → CausalIns e s i) ∧ CausalInsRun e lh rest (doTx e s lh i).1
+
+theorem CausalRun.toIns {e : Env} {lh : Int} {subs : List Nat} {s : St} (h : CausalRun e lh subs s) :
+    CausalInsRun e lh subs s := by
+  induction subs generalizing s with
+  | nil => trivial
+  | cons i rest ih => exact ⟨fun hok => (h.1 hok).toIns, ih h.2⟩
+
 theorem submitAll_InsDisjoint (e : Env) (old : List Nat) (lh : Int) (subs : List Nat) (s : St)
-    (hinv : InsDisjoint e old s) (hc : CausalRun e lh subs s) : InsDisjoint e old (submitAll e lh subs s) := by
+    (hinv : InsDisjoint e old s) (hc : CausalInsRun e lh subs s) : InsDisjoint e old (submitAll e lh subs s) := by
   induction subs generalizing s with
   | nil => exact hinv
   | cons i rest ih => exact ih _ (doTx_InsDisjoint e old s lh i hinv hc.1) hc.2
+
+/-- **no double spend of token outputs over whole histories** (token half of `no_double_spend_pool`, needing only the
+token half of the causality hypotheses) -/
+theorem no_double_spend_pool_tokens (e : Env) (lh : Int) (subs : List Nat) (s : St)
+    (hins : ∀ i ∈ s.pool, ∀ r ∈ (e.tx i).ins, lookup s.U (r.tx, r.off) = none)
+    (hc : CausalInsRun e lh subs s) :
+    (∀ i ∈ (submitAll e lh subs s).pool, ∀ r ∈ (e.tx i).ins, lookup (submitAll e lh subs s).U (r.tx, r.off) = none) ∧
+    ∀ i ∈ (submitAll e lh subs s).pool, ∀ j ∈ (submitAll e lh subs s).pool, i ≠ j → ¬ (i ∈ s.pool ∧ j ∈ s.pool) →
+      ∀ r ∈ (e.tx i).ins, ∀ r' ∈ (e.tx j).ins, (r.tx, r.off) ≠ (r'.tx, r'.off) := by
+  have h := submitAll_InsDisjoint e s.pool lh subs s (InsDisjoint_init e s hins) hc
+  exact ⟨h.insSpent, h.disjoint⟩
 
 theorem submitAll_VersDisjoint (e : Env) (old : List Nat) (lh : Int) (subs : List Nat) (s : St)
     (hinv : VersDisjoint e old s) (hc : CausalRun e lh subs s) : VersDisjoint e old (submitAll e lh subs s) := by
@@ -439,7 +467,7 @@ theorem no_double_spend_pool (e : Env) (lh : Int) (subs : List Nat) (s : St)
       (∀ r ∈ (e.tx i).ins, ∀ r' ∈ (e.tx j).ins, (r.tx, r.off) ≠ (r'.tx, r'.off)) ∧
       (∀ k v, supersedes (e.tx i) k v → ¬ supersedes (e.tx j) k v) := by
   intro i hi j hj hij hold
-  exact ⟨(submitAll_InsDisjoint e s.pool lh subs s (InsDisjoint_init e s hins) hc).disjoint i hi j hj hij hold,
+  exact ⟨(submitAll_InsDisjoint e s.pool lh subs s (InsDisjoint_init e s hins) hc.toIns).disjoint i hi j hj hij hold,
     (submitAll_VersDisjoint e s.pool lh subs s (VersDisjoint_init e s hver) hc).disjoint i hi j hj hij hold⟩
 
 /-- the same from an empty pool: *any* two distinct pending transactions are disjoint, and all their inputs are spent -/
@@ -449,7 +477,7 @@ theorem no_double_spend_pool_empty (e : Env) (lh : Int) (subs : List Nat) (s : S
     ∀ i ∈ (submitAll e lh subs s).pool, ∀ j ∈ (submitAll e lh subs s).pool, i ≠ j →
       (∀ r ∈ (e.tx i).ins, ∀ r' ∈ (e.tx j).ins, (r.tx, r.off) ≠ (r'.tx, r'.off)) ∧
       (∀ k v, supersedes (e.tx i) k v → ¬ supersedes (e.tx j) k v) := by
-  have h1 := submitAll_InsDisjoint e [] lh subs s (InsDisjoint_empty e [] s hempty) hc
+  have h1 := submitAll_InsDisjoint e [] lh subs s (InsDisjoint_empty e [] s hempty) hc.toIns
   have h2 := submitAll_VersDisjoint e [] lh subs s (VersDisjoint_empty e [] s hempty) hc
   exact ⟨h1.insSpent, fun i hi j hj hij =>
     ⟨h1.disjoint i hi j hj hij (by simp), h2.disjoint i hi j hj hij (by simp)⟩⟩
